@@ -1,0 +1,65 @@
+//go:build verif
+
+package tracker
+
+import (
+	"bytes"
+	"context"
+	"net"
+	"net/netip"
+	nurl "net/url"
+	"sync/atomic"
+	"time"
+)
+
+func verifBase(tr Tracker) *base {
+	switch t := tr.(type) {
+	case *HTTP:
+		return &t.base
+	case *UDP:
+		return &t.base
+	case *Unknown:
+		return &t.base
+	}
+	return nil
+}
+
+type VerifBaseState struct {
+	Time     time.Time
+	Interval time.Duration
+	Err      error
+	Locked   bool
+}
+
+func VerifGet(tr Tracker) VerifBaseState {
+	b := verifBase(tr)
+	return VerifBaseState{b.time, b.interval, b.err, atomic.LoadInt32(&b.locked) != 0}
+}
+func VerifSetTime(tr Tracker, t time.Time)         { verifBase(tr).time = t }
+func VerifSetInterval(tr Tracker, d time.Duration) { verifBase(tr).interval = d }
+func VerifReady(tr Tracker) bool                   { return verifBase(tr).ready() }
+func VerifUpdateInterval(tr Tracker, d time.Duration, err error) {
+	verifBase(tr).updateInterval(d, err)
+}
+func VerifTryLock(tr Tracker) bool { return verifBase(tr).tryLock() }
+func VerifUnlock(tr Tracker)       { verifBase(tr).unlock() }
+
+func VerifUDPRequestReply(ctx context.Context, conn net.Conn, request []byte,
+	min int, action uint32, tid uint32) (*bytes.Reader, error) {
+	return udpRequestReply(ctx, conn, request, min, action, tid)
+}
+
+func VerifAnnounceUDP(ctx context.Context, prot string, f func(netip.AddrPort) bool,
+	url string, hash, myid []byte, want int, size int64, port int, prox string) (time.Duration, error) {
+	u, err := nurl.Parse(url)
+	if err != nil {
+		return 0, err
+	}
+	return announceUDP(ctx, prot, f, u, hash, myid, want, size, port, prox)
+}
+
+func VerifAnnounceHTTP(ctx context.Context, protocol string, tr *HTTP,
+	hash []byte, myid []byte, want int, size int64, port int, proxy string,
+	f func(netip.AddrPort) bool) (int, error) {
+	return announceHTTP(ctx, protocol, tr, hash, myid, want, size, port, proxy, f)
+}
